@@ -69,7 +69,11 @@ struct Context {
     long kernelCalls = 0;
     bool recordTrace = false; FILE* trace = nullptr; long curTask = -1; long curWorker = 0;
     long counters[7] = {0,0,0,0,0,0,0};
-    void resetRecording(){ elems.clear(); kernelCalls = 0; for(auto& c : counters) c = 0; }
+    std::map<const void*, std::set<long>> kernelWorkers;        // kernel object -> worker ids that used it inside tasks
+    void useKernel(const void* k){ kernelCalls++; if(curTask >= 0) kernelWorkers[k].insert(curWorker); }
+    void (*touch)(const void* obj, bool write) = nullptr;      // access recorder of the task-graph drivers
+    void tch(const void* p, bool w){ if(touch) touch(p, w); }
+    void resetRecording(){ elems.clear(); kernelWorkers.clear(); kernelCalls = 0; for(auto& c : counters) c = 0; }
     long elemDigest() const { long s = 0; for(auto& e : elems) s = (s + elemHash(e)) % 1000003; return s; }
     void arg(bool cond, const char* what){ if(rep) rep->ok("Arg", scen, cond, what); }
 };
@@ -136,11 +140,12 @@ public:
 
     template <class Symb, class Parts, class Leaf>
     void P2M(const Symb& s, const long int idx[], const Parts& parts, const long int n, Leaf& leaf) const {
-        auto& C = ctx<Dim>(); C.kernelCalls++; C.counters[0] += 1;
+        auto& C = ctx<Dim>(); C.useKernel(this); C.counters[0] += 1;
         checkParticles(s, idx, parts, n, 0);
         auto it = C.mpOf.find(&leaf);
         C.arg(it != C.mpOf.end() && it->second.level == C.height - 1 && it->second.index == (long)s.spaceIndex, "P2M: multipole is not the leaf cell named by the symbolic data");
         long z[Dim]; for(long d = 0; d < Dim; ++d) z[d] = 0;
+        C.tch(parts[0], false); C.tch(&leaf, true);
         for(long i = 0; i < n; ++i) leaf.add(idx[i], z, 1);
         C.elems.push_back({1, (long)s.spaceIndex, 0, 0, 0});
         if(C.trace) fprintf(C.trace, "{\"e\":\"P2M\",\"t\":%ld,\"n\":%ld,\"task\":%ld,\"w\":%ld}\n", (long)s.spaceIndex, (long)n, C.curTask, C.curWorker);
@@ -148,7 +153,7 @@ public:
 
     template <class Symb, class Children, class Cell>
     void M2M(const Symb& s, const long int lvl, const Children& low, Cell& up, const long int pos[], const long int n) const {
-        auto& C = ctx<Dim>(); C.kernelCalls++; C.counters[1] += n;
+        auto& C = ctx<Dim>(); C.useKernel(this); C.counters[1] += n;
         C.arg(n >= 1 && n <= (1L << Dim), "M2M: number of children out of range");
         C.arg(levelOk(lvl), "M2M: level out of range");
         auto pit = C.mpOf.find(&up);
@@ -169,6 +174,7 @@ public:
                 srcs.push_back(ch.index);
             } else if(cit != C.mpOf.end()){ srcs.push_back(cit->second.index); } else srcs.push_back(-1);
             codes.push_back(pos[i]);
+            C.tch(&low[i].get(), false); C.tch(&up, true);
             if(levelOk(lvl) && pos[i] >= 0 && pos[i] < (1L << Dim)){ long t[Dim]; tchild(lvl, pos[i], t); up.addShifted(low[i].get(), t, 1); }
             if(!virt) C.elems.push_back({2, (long)lvl, (long)s.spaceIndex, srcs.back(), (long)pos[i]});
         }
@@ -177,7 +183,7 @@ public:
 
     template <class Symb, class Sources, class Cell>
     void M2L(const Symb& s, const long int lvl, const Sources& src, const long int pos[], const long int n, Cell& out) const {
-        auto& C = ctx<Dim>(); C.kernelCalls++; C.counters[2] += n;
+        auto& C = ctx<Dim>(); C.useKernel(this); C.counters[2] += n;
         C.arg(n >= 1, "M2L called with an empty source list");
         C.arg(levelOk(lvl), "M2L: level out of range");
         auto tit = C.loOf.find(&out);
@@ -209,6 +215,7 @@ public:
                 srcs.push_back(sc.index);
             } else if(sit != C.mpOf.end()){ srcs.push_back(sit->second.index); } else srcs.push_back(-1);
             codes.push_back(pos[i]);
+            C.tch(&src[i].get(), false); C.tch(&out, true);
             if(levelOk(lvl) && codeOk){ long t[Dim]; for(long d = 0; d < Dim; ++d) t[d] = off[d] * W(lvl, d); out.addShifted(src[i].get(), t, 1); }
             if(!virt) C.elems.push_back({3, (long)lvl, (long)s.spaceIndex, srcs.back(), (long)pos[i]});
         }
@@ -217,7 +224,7 @@ public:
 
     template <class Symb, class Cell, class Children>
     void L2L(const Symb& s, const long int lvl, const Cell& up, Children& low, const long int pos[], const long int n) const {
-        auto& C = ctx<Dim>(); C.kernelCalls++; C.counters[3] += n;
+        auto& C = ctx<Dim>(); C.useKernel(this); C.counters[3] += n;
         C.arg(n >= 1 && n <= (1L << Dim), "L2L: number of children out of range");
         C.arg(levelOk(lvl), "L2L: level out of range");
         auto pit = C.loOf.find(&up);
@@ -239,6 +246,7 @@ public:
                 srcs.push_back(ch.index);
             } else if(cit != C.loOf.end()){ srcs.push_back(cit->second.index); } else srcs.push_back(-1);
             codes.push_back(pos[i]);
+            C.tch(&up, false); C.tch(&low[i].get(), true);
             if(levelOk(lvl) && codeOk){ long t[Dim]; tchild(lvl, pos[i], t); low[i].get().addShifted(up, t, -1); }
             if(!virt) C.elems.push_back({4, (long)lvl, (long)s.spaceIndex, srcs.back(), (long)pos[i]});
         }
@@ -247,11 +255,12 @@ public:
 
     template <class Symb, class Leaf, class Parts, class Rhs>
     void L2P(const Symb& s, const Leaf& leaf, const long int idx[], const Parts& parts, Rhs& rhs, const long int n) const {
-        auto& C = ctx<Dim>(); C.kernelCalls++; C.counters[4] += 1;
+        auto& C = ctx<Dim>(); C.useKernel(this); C.counters[4] += 1;
         checkParticles(s, idx, parts, n, (int)C.inputData[1].size() ? 1 : 0);
         auto it = C.loOf.find(&leaf);
         C.arg(it != C.loOf.end() && it->second.level == C.height - 1 && it->second.index == (long)s.spaceIndex, "L2P: local is not the leaf cell named by the symbolic data");
         long z[Dim]; for(long d = 0; d < Dim; ++d) z[d] = 0;
+        C.tch(&leaf, false); C.tch(parts[0], false); C.tch(rhs[0], true);
         for(long i = 0; i < n; ++i) rhs[0][i].addShifted(leaf, z, 1);
         C.elems.push_back({5, (long)s.spaceIndex, 0, 0, 0});
         if(C.trace) fprintf(C.trace, "{\"e\":\"L2P\",\"t\":%ld,\"n\":%ld,\"task\":%ld,\"w\":%ld}\n", (long)s.spaceIndex, (long)n, C.curTask, C.curWorker);
@@ -278,9 +287,10 @@ public:
     template <class Symb, class Parts, class Rhs>
     void P2P(const Symb& s1, const long int i1[], const Parts& p1, Rhs& r1, const long int n1,
              const Symb& s2, const long int i2[], const Parts& p2, Rhs& r2, const long int n2, const long code) const {
-        auto& C = ctx<Dim>(); C.kernelCalls++; C.counters[5] += n1 * n2;
+        auto& C = ctx<Dim>(); C.useKernel(this); C.counters[5] += n1 * n2;
         checkParticles(s1, i1, p1, n1, 0); checkParticles(s2, i2, p2, n2, 0);
         checkP2POffset(s1, s2, code, false);
+        C.tch(p1[0], false); C.tch(p2[0], false); C.tch(r1[0], true); C.tch(r2[0], true);
         long t[Dim], m[Dim]; dec(code, 3, 1, t); for(long d = 0; d < Dim; ++d){ t[d] *= 2; m[d] = -t[d]; }
         for(long i = 0; i < n2; ++i) for(long j = 0; j < n1; ++j) r2[0][i].add(i1[j], t, 1);     // the target sees its neighbour at +offset
         for(long j = 0; j < n1; ++j) for(long i = 0; i < n2; ++i) r1[0][j].add(i2[i], m, 1);     // mutual
@@ -291,7 +301,7 @@ public:
     template <class SymbS, class PartsS, class SymbT, class PartsT, class Rhs>
     void P2PTsm(const SymbS& s1, const long int i1[], const PartsS& p1, const long int n1,
                 const SymbT& s2, const long int i2[], const PartsT& p2, Rhs& r2, const long int n2, const long code) const {
-        auto& C = ctx<Dim>(); C.kernelCalls++; C.counters[5] += n1 * n2;
+        auto& C = ctx<Dim>(); C.useKernel(this); C.counters[5] += n1 * n2;
         checkParticles(s1, i1, p1, n1, 0); checkParticles(s2, i2, p2, n2, 1);
         {   // offsets (source and target headers have different types)
             long p3 = 1; for(long d = 0; d < Dim; ++d) p3 *= 3;
@@ -301,6 +311,7 @@ public:
                     if(C.periodic){ if(((off[d] - diff) % side) != 0) offOk = false; } else if(off[d] != diff) offOk = false; }
                 C.arg(offOk, "P2PTsm: source leaf does not sit at the relative offset encoded by its position code"); }
         }
+        C.tch(p1[0], false); C.tch(p2[0], false); C.tch(r2[0], true);
         long t[Dim]; dec(code, 3, 1, t); for(long d = 0; d < Dim; ++d) t[d] *= 2;
         for(long i = 0; i < n2; ++i) for(long j = 0; j < n1; ++j) r2[0][i].add(i1[j], t, 1);
         C.elems.push_back({6, (long)s2.spaceIndex, (long)s1.spaceIndex, (long)code, 0});
@@ -309,9 +320,10 @@ public:
 
     template <class Symb, class Parts, class Rhs>
     void P2PInner(const Symb& s, const long int idx[], const Parts& parts, Rhs& r, const long int n) const {
-        auto& C = ctx<Dim>(); C.kernelCalls++; C.counters[6] += n * n - n;
+        auto& C = ctx<Dim>(); C.useKernel(this); C.counters[6] += n * n - n;
         checkParticles(s, idx, parts, n, 0);
         long z[Dim]; for(long d = 0; d < Dim; ++d) z[d] = 0;
+        C.tch(parts[0], false); C.tch(r[0], true);
         for(long i = 0; i < n; ++i) for(long j = 0; j < n; ++j) if(i != j) r[0][i].add(idx[j], z, 1);
         C.elems.push_back({7, (long)s.spaceIndex, 0, 0, 0});
         if(C.trace) fprintf(C.trace, "{\"e\":\"P2PI\",\"t\":%ld,\"n\":%ld,\"task\":%ld,\"w\":%ld}\n", (long)s.spaceIndex, (long)n, C.curTask, C.curWorker);
